@@ -472,7 +472,7 @@ class Spec:
             c = self.eval_bool(ex, args[0], env, st, old)
             a, b = self.coerce(ex, ev(args[1]), ev(args[2]))
             if self.is_lit(a):
-                raise EngineError('ite of two literals')
+                return V(('$mathint',), z3.If(c, z3.IntVal(a.x), z3.IntVal(b.x)))
             return self.ite(ex, c, a, b)
         if fn == 'view':
             m = ev(args[0])
@@ -552,6 +552,17 @@ class Spec:
             f = ev(args[0])
             n = len([e for e in st.trace if e[0] == 'cb' and e[1].eq(ex.term(f))])
             return LIT(n)
+        if fn in ('cbn', 'cbf', 'cba'):
+            f = ev(args[0])
+            names, pts = self.ledger(ex, st, self.sig_of(ex, f.t))
+            if fn == 'cbn':
+                return V(('$mathint',), st.ghost[names[0]])
+            i = ev(args[1])
+            ii = z3.IntVal(i.x) if self.is_lit(i) else i.x
+            if fn == 'cbf':
+                return V(f.t, z3.Select(st.ghost[names[1]], ii))
+            j = ev(args[2]).x
+            return ex.ts.unpack(pts[j], z3.Select(st.ghost[names[2 + j]], ii))
         if fn == 'len':
             x = ev(args[0])
             return x.x[1]
@@ -686,6 +697,7 @@ class Spec:
             if i == len(clauses):
                 if not havocked:
                     self.havoc_all(ex, con, env2, st2, old)
+                    self.callee_reenters(ex, con, st2, site)
                 return finish(st2)
             c = clauses[i]
             if c.kind == 'modifies':
@@ -701,6 +713,7 @@ class Spec:
             if c.kind == 'ensures':
                 if not havocked:
                     self.havoc_all(ex, con, env2, st2, old)
+                    self.callee_reenters(ex, con, st2, site)
                     havocked = True
                 g = self.eval_bool(ex, c.expr, env2, st2, old)
                 st2.pc.append(g)
@@ -708,6 +721,16 @@ class Spec:
             raise EngineError('clause kind ' + c.kind)
 
         step(0, st, env, False)
+
+    def callee_reenters(self, ex, con, st, site):
+        if not con.of('reenters'):
+            return
+        pure = ex.fresh('cbpure', BoolS)
+        locked = getattr(st, 'locked', 0)
+        ex.oblige(st, 'C13/%s/callback.unlocked@%s' % (ex.short_fn(), site), z3.BoolVal(locked == 0), tags=['C13', 'C06'],
+                  kind='discipline')
+        st.trace.append(('cb', None, [], [], site, pure, locked))
+        self.reentrant_havoc(ex, st, pure)
 
     def on_contract_call(self, ex, fr, ins, con, name, args, st):
         st.trace.append(('call', name, [a for a in args], ex.line(ins)))
@@ -727,6 +750,12 @@ class Spec:
             st.ghost[self.view_name(ks, vs)] = z3.Store(arr, ex.term(m), ex.fresh('view', z3.ArraySort(ks, ex.ts.opt_sort(vs))))
             return
         if e[0] == 'call' and e[1] == 'inv':
+            return
+        if e[0] == 'call' and e[1] == 'ledger':
+            f = self.eval(ex, e[2][0], env, old, old)
+            names, pts = self.ledger(ex, st, self.sig_of(ex, f.t))
+            for n in names:
+                st.ghost[n] = ex.fresh('g_' + mangle(n), st.ghost[n].sort())
             return
         if e[0] == 'id' and e[1] in self.ghost_decl:
             g = self.ghost_get(ex, st, e[1])
@@ -796,7 +825,14 @@ class Spec:
                     env2[n] = ('val', r)
             k(st2, env2)
 
-        st.in_callback = getattr(st, 'in_callback', 0)
+        lockd = 1 if c.extra.get('locked') else 0
+        if lockd:
+            st.locked = getattr(st, 'locked', 0) + 1
+            after0 = after
+
+            def after(st2, res, after0=after0):
+                st2.locked = getattr(st2, 'locked', 1) - 1
+                after0(st2, res)
         if when is None:
             return ex.call_value(fr, ins, fv, args, st, after)
         cond = self.eval_bool(ex, when, env, st, old)
@@ -814,14 +850,57 @@ class Spec:
     def iterates_caller(self, ex, fr, ins, con, c, env, st, old, k):
         raise EngineError('iterates not implemented')
 
+    def ledger(self, ex, st, sigt):
+        """Ghost ledger of callback invocations, one per function signature: count N, callee F[i], args Aj[i]."""
+        key = mangle(sigt)
+        sig = self.prog.under(sigt)[1]
+        pts = sig.get('params') or []
+        names = ['cbN$' + key, 'cbF$' + key] + ['cbA%d$%s' % (j, key) for j in range(len(pts))]
+        sorts = [IntS, z3.ArraySort(IntS, Fn)] + [z3.ArraySort(IntS, ex.ts.sort(pt)) for pt in pts]
+        for n, srt in zip(names, sorts):
+            if n not in st.ghost:
+                st.ghost[n] = z3.Const('g0_' + mangle(n), srt)
+        return names, pts
+
+    def sig_of(self, ex, t):
+        u, r = self.prog.under(t)
+        return u
+
     def on_opaque_call(self, ex, fr, ins, fv, args, rets, st):
         pure = None
         pol = self.callback_policy(ex, fv)
+        sigt = self.sig_of(ex, fv.t)
+        names, pts = self.ledger(ex, st, sigt)
+        n = st.ghost[names[0]]
+        st.ghost[names[1]] = z3.Store(st.ghost[names[1]], n, ex.term(fv))
+        for j, a in enumerate(args):
+            st.ghost[names[2 + j]] = z3.Store(st.ghost[names[2 + j]], n, ex.ts.pack(a))
+        st.ghost[names[0]] = n + 1
+        locked = getattr(st, 'locked', 0)
         if pol == 'reentrant':
             pure = ex.fresh('cbpure', BoolS)
-        st.trace.append(('cb', ex.term(fv), [a for a in args], rets, ex.line(ins), pure))
+            ex.oblige(st, 'C13/%s/callback.unlocked@L%s' % (ex.short_fn(), ex.line(ins)), z3.BoolVal(locked == 0),
+                      tags=['C13', 'C06'], kind='discipline')
+        st.trace.append(('cb', ex.term(fv), [a for a in args], rets, ex.line(ins), pure, locked))
         if pol == 'reentrant':
-            self.reentrant_havoc(ex, st, pure)
+            self.reentry(ex, st, pure, 'L' + ex.line(ins))
+
+    def reentry(self, ex, st, pure, site):
+        """A re-entrant callback (or a callee that runs one): the re-entry invariant must hold now, everything
+        reachable by the callback becomes arbitrary unless it was pure, and the invariant holds again after."""
+        con = ex.cur_contract
+        invs = con.of('reenters') if con is not None else []
+        env = ex.cur_env
+        for c in invs:
+            if c.extra['arg']:
+                e = specparse.parse_expr(c.extra['arg'])
+                g = self.eval_bool(ex, e, env, st, st)
+                ex.oblige(st, 'C13/%s/reentry.inv@%s' % (ex.short_fn(), site), g, tags=['C13'], kind='discipline')
+        self.reentrant_havoc(ex, st, pure)
+        for c in invs:
+            if c.extra['arg']:
+                e = specparse.parse_expr(c.extra['arg'])
+                st.pc.append(self.eval_bool(ex, e, env, st, st))
 
     def callback_policy(self, ex, fv):
         con = ex.cur_contract
@@ -974,6 +1053,7 @@ class Spec:
         if 'allmem' in items and 'allghost' in items:
             return
         pid = '.'.join(st.pathid)
+        pure_all = z3.And(*[ev[5] for ev in st.trace if ev[0] == 'cb' and ev[5] is not None] + [z3.BoolVal(True)])
         allowed_mem = []
         allowed_view = []
         allowed_ghost = set()
@@ -984,6 +1064,10 @@ class Spec:
                 allowed_mem.append(p)
             elif e[0] == 'call' and e[1] == 'view':
                 allowed_view.append(self.eval(ex, e[2][0], env, old, old))
+            elif e[0] == 'call' and e[1] == 'ledger':
+                f = self.eval(ex, e[2][0], env, old, old)
+                names, pts = self.ledger(ex, st, self.sig_of(ex, f.t))
+                allowed_ghost.update(names)
             elif e[0] == 'id':
                 allowed_ghost.add(e[1])
             elif e[0] == 'call' and e[1] in self.ghost_decl:
@@ -1008,9 +1092,16 @@ class Spec:
                     ov = ex.load_leaf(old, cell[2], p)
                     goals.append(v == ov)
             if goals:
-                ex.oblige(st, 'FRAME/%s/frame.mem#%s' % (short, pid), z3.And(*goals), tags=['FRAME'], kind='frame')
+                ex.oblige(st, 'FRAME/%s/frame.mem#%s' % (short, pid), z3.Implies(pure_all, z3.And(*goals)), tags=['FRAME'], kind='frame')
         if 'allghost' not in items:
             goals = []
+            # ledgers of the function's own function-typed parameters (user functions it is meant to call)
+            f = self.prog.funcs[con.fn]
+            for prm in f['params']:
+                if ex.ts.rep(prm['t'])[0] == 'fn':
+                    names, pts = self.ledger(ex, st, self.sig_of(ex, prm['t']))
+                    if self.sig_of(ex, prm['t']) not in self.protected_sigs(ex):
+                        allowed_ghost.update(names)
             for g, cur in st.ghost.items():
                 if g.startswith('$now') or g.startswith('gomap$'):
                     continue
@@ -1032,7 +1123,16 @@ class Spec:
                 else:
                     goals.append(cur == o)
             if goals:
-                ex.oblige(st, 'FRAME/%s/frame.ghost#%s' % (short, pid), z3.And(*goals), tags=['FRAME'], kind='frame')
+                ex.oblige(st, 'FRAME/%s/frame.ghost#%s' % (short, pid), z3.Implies(pure_all, z3.And(*goals)), tags=['FRAME'], kind='frame')
+
+    def protected_sigs(self, ex):
+        out = set()
+        for n in ('EvictedCallback', 'EvictedCallbackOf'):
+            try:
+                out.add(self.sig_of(ex, self.resolve_type(ex, n)))
+            except EngineError:
+                pass
+        return out
 
     def prefix_of(self, q, p):
         """q is a (not necessarily leaf) location; p a leaf location inside it?"""
